@@ -118,6 +118,9 @@ impl Recorder {
     }
 }
 
+/// Base deadline (seconds) for one child open: `C09_DEADLINE`, default 30.
+fn env_deadline() -> u64 { std::env::var("C09_DEADLINE").ok().and_then(|s| s.parse().ok()).unwrap_or(30) }
+
 fn install(rec: &Arc<Recorder>) {
     let r = rec.clone();
     locustdb::verif::set_fs_callback(Some(Box::new(move |label, path, data| r.on_effect(label, path, data))));
@@ -132,7 +135,7 @@ fn dump_table(db: &Arc<LocustDB>, table: &str) -> String {
     let sql = if table == "_meta_tables" { "SELECT name FROM _meta_tables".to_string() }
         else if table.starts_with("_meta_columns_") { format!("SELECT column_name FROM {}", table) }
         else { format!("SELECT * FROM {}", table) };
-    match query_full(db, &sql, false, 15) {
+    match query_full(db, &sql, false, (env_deadline() / 2).max(15)) {
         QOut::Ok { cols, .. } => {
             let mut cols: Vec<(String, Vec<Cell>)> = cols;
             cols.sort_by(|a, b| a.0.cmp(&b.0));
@@ -188,7 +191,7 @@ fn child_open(a: &[String]) -> ! {
     }
     println!("DUMP {}", dump(&db));
     if flush {
-        let base: u64 = std::env::var("C09_DEADLINE").ok().and_then(|s| s.parse().ok()).unwrap_or(30);
+        let base: u64 = env_deadline();
         match with_deadline(base * 3 / 4, { let db = db.clone(); move || db.force_flush() }) {
             Some(Ok(())) => println!("FLUSH ok"),
             Some(Err(_)) => println!("FLUSH panic"),
@@ -221,8 +224,9 @@ fn run_child_once(dir: &Path, io: usize, cf: u64, flush: bool, snap: Option<&Pat
     let mut child = cmd.spawn().expect("spawn child");
     let t0 = Instant::now();
     // a normal open takes ~0.1 s; C09_DEADLINE (seconds) overrides the 30 s deadline
-    let base: u64 = deadline.or(std::env::var("C09_DEADLINE").ok().and_then(|s| s.parse().ok())).unwrap_or(30);
-    let limit = Duration::from_secs(if flush { base * 2 } else { base });
+    let base: u64 = deadline.unwrap_or_else(env_deadline);
+    // the child runs up to 5 dump queries (deadline base/2 each) after the open; a flush child also flushes and dumps again
+    let limit = Duration::from_secs(if flush { base * 3 } else { base * 2 });
     let status = loop {
         match child.try_wait().unwrap() {
             Some(st) => break if st.success() { "ok" } else { "panic" },
@@ -247,25 +251,33 @@ fn run_child_once(dir: &Path, io: usize, cf: u64, flush: bool, snap: Option<&Pat
 }
 
 static FLAKY: AtomicUsize = AtomicUsize::new(0);
+/// after this instant no re-verification is started any more (see the wall-clock budgets in `main`)
+static HARD_STOP: std::sync::OnceLock<Instant> = std::sync::OnceLock::new();
 
-/// Open `dir` in a child (deadline `C09_DEADLINE`, default 30 s; a normal open takes ~0.1 s).  An abnormal outcome (hang /
-/// panic / a failed dump query) is re-verified once on a pristine copy of the same state with twice the deadline, so that a
-/// load spike on a shared machine is not reported as a hang; only an outcome that persists is reported.
+/// Open `dir` in a child.  Deadline: `C09_DEADLINE` seconds (set by the parent from a calibration run: 30 s, more on a
+/// loaded machine; a normal open takes ~0.1 s).  An abnormal outcome (hang / panic / a failed dump query / a failed flush) is
+/// re-verified up to twice on a pristine copy of the same state with the deadline doubled each time, so that a load spike
+/// on a shared machine is not reported as a hang; only an outcome that persists through all three attempts is reported.
 fn run_child(dir: &Path, io: usize, cf: u64, flush: bool, snap: Option<&Path>) -> ChildOut {
-    let base: u64 = std::env::var("C09_DEADLINE").ok().and_then(|s| s.parse().ok()).unwrap_or(30);
-    let retry = snap.is_none();
+    let base = env_deadline();
     let backup = dir.with_extension("retry");
-    if retry { let _ = std::fs::remove_dir_all(&backup); copy_dir(dir, &backup); }
-    let mut r = run_child_once(dir, io, cf, flush, snap, None);
+    let _ = std::fs::remove_dir_all(&backup);
+    copy_dir(dir, &backup);
+    let mut r = run_child_once(dir, io, cf, flush, snap, Some(base));
     let abnormal = |r: &ChildOut| r.status != "ok" || r.dump.contains('!') || r.dump2.contains('!') || (flush && r.flush != "ok");
-    if retry && abnormal(&r) {
+    let mut d = base;
+    for _ in 0..2 {
+        if !abnormal(&r) { break; }
+        if HARD_STOP.get().map(|t| Instant::now() > *t).unwrap_or(false) { break; }
+        d *= 2;
         let _ = std::fs::remove_dir_all(dir);
         copy_dir(&backup, dir);
-        let r2 = run_child_once(dir, io, cf, flush, snap, Some(base * 2));
-        if !abnormal(&r2) { FLAKY.fetch_add(1, Ordering::SeqCst); eprintln!("[c09] flaky open of {:?}: first {:?}, retry ok", dir, r.status); }
+        if let Some(s) = snap { let _ = std::fs::remove_dir_all(s); std::fs::create_dir_all(s).unwrap(); }
+        let r2 = run_child_once(dir, io, cf, flush, snap, Some(d));
+        if !abnormal(&r2) { FLAKY.fetch_add(1, Ordering::SeqCst); eprintln!("[c09] flaky open of {:?}: earlier attempt {:?}, re-verification with {} s ok", dir, r.status, d); }
         r = r2;
     }
-    if retry { let _ = std::fs::remove_dir_all(&backup); }
+    let _ = std::fs::remove_dir_all(&backup);
     r
 }
 
@@ -361,7 +373,7 @@ fn compaction_token(recs: &[Rec]) -> String {
     }).collect::<Vec<_>>().join(":")
 }
 
-struct Ctx { cases: Mutex<Cases>, crash_points: AtomicUsize, opens: AtomicUsize, thorough: bool }
+struct Ctx { cases: Mutex<Cases>, crash_points: AtomicUsize, opens: AtomicUsize, thorough: bool, hard_stop: Instant, dropped: AtomicUsize }
 
 fn run_workload(ctx: &Ctx, w: &Workload, seed: u64, work: &Path, budget_points: usize, rng: &mut Rng) {
     let root = work.join("db");
@@ -376,7 +388,8 @@ fn run_workload(ctx: &Ctx, w: &Workload, seed: u64, work: &Path, budget_points: 
     let mut db: Option<Arc<LocustDB>> = None;
     let mut compactions: Vec<String> = vec![];
     let mut aborted: Option<String> = None;
-    match with_deadline(30, { let o = opts.clone(); move || Arc::new(LocustDB::new(&o)) }) {
+    let live_dl = env_deadline() * 2;
+    match with_deadline(live_dl, { let o = opts.clone(); move || Arc::new(LocustDB::new(&o)) }) {
         Some(Ok(d)) => db = Some(d),
         Some(Err(_)) => aborted = Some("panic".into()),
         None => aborted = Some("hang".into()),
@@ -389,13 +402,13 @@ fn run_workload(ctx: &Ctx, w: &Workload, seed: u64, work: &Path, budget_points: 
             Op::Ingest(sh) => {
                 let b = batches(sh);
                 rec.inflight.store(1, Ordering::SeqCst);
-                let r = with_deadline(30, move || ingest(&d, &b));
+                let r = with_deadline(live_dl, move || ingest(&d, &b));
                 if matches!(r, Some(Ok(()))) { rec.acked.fetch_add(1, Ordering::SeqCst); rec.inflight.store(0, Ordering::SeqCst); }
                 r
             }
             Op::Flush => {
                 let before = rec.recs.lock().unwrap().len();
-                let r = with_deadline(40, move || d.force_flush());
+                let r = with_deadline(live_dl, move || d.force_flush());
                 let recs = rec.recs.lock().unwrap();
                 compactions.push(compaction_token(&recs[before..]));
                 r
@@ -405,7 +418,7 @@ fn run_workload(ctx: &Ctx, w: &Workload, seed: u64, work: &Path, budget_points: 
                 db = None;
                 // let the old instance's background threads observe `running = false`
                 std::thread::sleep(Duration::from_millis(30));
-                match with_deadline(30, { let o = opts.clone(); move || Arc::new(LocustDB::new(&o)) }) {
+                match with_deadline(live_dl, { let o = opts.clone(); move || Arc::new(LocustDB::new(&o)) }) {
                     Some(Ok(nd)) => { db = Some(nd); Some(Ok(())) }
                     Some(Err(e)) => Some(Err(e)),
                     None => None,
@@ -470,6 +483,7 @@ fn run_workload(ctx: &Ctx, w: &Workload, seed: u64, work: &Path, budget_points: 
                 loop {
                     let k = next.fetch_add(1, Ordering::SeqCst);
                     if k >= points.len() { break; }
+                    if Instant::now() > ctx.hard_stop { ctx.dropped.fetch_add(1, Ordering::SeqCst); continue; }
                     let (at, trunc) = points[k];
                     let r = &recs[at - 1];
                     let class_base = format!("{}.{}{}", label_letter(&r.label), &r.file[..1], if trunc == "-" { String::new() } else { format!("/{}", trunc) });
@@ -546,7 +560,23 @@ fn main() {
     if std::env::var("C09_LOUD").is_err() { quiet_panics(); }
     let mut rng = Rng::new(args.seed);
     let t0 = Instant::now();
-    let ctx = Ctx { cases: Mutex::new(Cases::create(&args.out)), crash_points: AtomicUsize::new(0), opens: AtomicUsize::new(0), thorough: args.thorough() || args.replay.is_some() };
+    // calibration: how long does opening an empty database in a child take right now?  (~0.1-0.3 s on an idle machine)
+    if std::env::var("C09_DEADLINE").is_err() {
+        let cal = tempfile::tempdir().unwrap();
+        let c0 = Instant::now();
+        let r = run_child_once(&cal.path().join("db"), 1, 4, false, None, Some(150));
+        let t_cal = c0.elapsed().as_secs_f64();
+        let base = ((t_cal * 20.0) as u64).clamp(30, 90);
+        eprintln!("[c09] calibration: empty open {:?} in {:.1} s => deadline {} s (re-verification {} s, {} s)", r.status, t_cal, base, base * 2, base * 4);
+        std::env::set_var("C09_DEADLINE", base.to_string());
+    }
+    // wall-clock budgets (the generic runner kills a harness after 3000 s and reports that as a failure): after the soft
+    // budget no new workload is started, after the hard one no new crash point; both are reported on stderr
+    let soft_s: u64 = std::env::var("C09_BUDGET_S").ok().and_then(|s| s.parse().ok()).unwrap_or(if args.thorough() { 1500 } else { 1200 });
+    let hard_s: u64 = (soft_s + 600).min(2100).max(soft_s);
+    let _ = HARD_STOP.set(t0 + Duration::from_secs(hard_s));
+    let ctx = Ctx { cases: Mutex::new(Cases::create(&args.out)), crash_points: AtomicUsize::new(0), opens: AtomicUsize::new(0), thorough: args.thorough() || args.replay.is_some(),
+        hard_stop: t0 + Duration::from_secs(hard_s), dropped: AtomicUsize::new(0) };
     let tmp = tempfile::tempdir().unwrap();
     let work = tmp.path().join("w");
     if let Some(p) = &args.replay {
@@ -596,9 +626,7 @@ fn main() {
             plan.push((s, *rng.pick(&[1usize, 4]), *rng.pick(&[0u64, 1, 4, 999]), usize::MAX));
         }
     }
-    // wall-clock budget (the generic runner kills a harness after 3000 s and reports that as a failure): on an overloaded
-    // machine the remaining workloads are skipped — every workload that was started is completed and checked in full
-    let budget_s: u64 = std::env::var("C09_BUDGET_S").ok().and_then(|s| s.parse().ok()).unwrap_or(if args.thorough() { 2400 } else { 1500 });
+    let budget_s = soft_s;
     let mut skipped = 0;
     for (i, (shape, io, cf, budget)) in plan.iter().enumerate() {
         let mut w = workload(shape, *io, *cf, &mut rng);
@@ -608,6 +636,7 @@ fn main() {
         eprintln!("[c09] {} done: crash points {} opens {} t={:.0}s", w.name, ctx.crash_points.load(Ordering::SeqCst), ctx.opens.load(Ordering::SeqCst), t0.elapsed().as_secs_f64());
     }
     if skipped > 0 { eprintln!("[c09] time budget of {} s exhausted: {} of {} workloads skipped", budget_s, skipped, plan.len()); }
+    if ctx.dropped.load(Ordering::SeqCst) > 0 { eprintln!("[c09] hard time budget of {} s exhausted: {} crash points dropped", hard_s, ctx.dropped.load(Ordering::SeqCst)); }
     eprintln!("[c09] flaky opens (abnormal first attempt, normal retry): {}", FLAKY.load(Ordering::SeqCst));
     eprintln!("[c09] crash points {} child opens {} wall {:.1}s", ctx.crash_points.load(Ordering::SeqCst), ctx.opens.load(Ordering::SeqCst), t0.elapsed().as_secs_f64());
     let Ctx { cases, .. } = ctx;
